@@ -272,6 +272,39 @@ def specUvals (u : U6 K) : List (Edit K) → U6 K
   | .setItem k v :: es => specUvals (u.set k v) es
   | .setFrac _ :: es => specUvals u es
 
+/-! ### the body of a file: atoms with other instructions between them (the parser's state when an atom is read) -/
+
+/-- a line of the file body, as far as the position of the atoms is concerned -/
+inductive BodyLine (K : Type) where
+  | move (params : List K)          -- MOVE dx[0] dy[0] dz[0] sign[1]  (any number of parameters written)
+  | other                           -- PART, RESI, AFIX, SAME, restraints, REM, … : state the observables of C12 do not read
+  | atom (p : V3 K) (u : U6 K)      -- an atom line (coordinates and U values below 4: no free-variable code)
+
+/-- `MOVE.__init__`: `dxdydz = params[:3]` if more than two numbers are written, `sign = params[3]` if more than three -/
+def moveOf (ps : List K) : Option (V3 K) × Option K :=
+  match ps with
+  | x :: y :: z :: rest => (some ⟨x, y, z⟩, rest.head?)
+  | _ => (none, none)
+
+/-- the parser while it walks through the body: `shx.move` (the last MOVE seen) and the atoms made so far -/
+structure ParseSt (K : Type) where
+  move : Option (Option (V3 K) × Option K)
+  atoms : List (AtomSt K)
+
+/-- one line: a MOVE replaces `shx.move`; an atom is made by `Atom.parse_line`, which does not read `shx.move` -/
+def parseLine (m : M3 K) (s : ParseSt K) : BodyLine K → ParseSt K
+  | .move ps => { s with move := some (moveOf ps) }
+  | .other => s
+  | .atom p u => { s with atoms := s.atoms ++ [parseAtom m p u] }
+
+def parseBody (m : M3 K) (ls : List (BodyLine K)) : ParseSt K := ls.foldl (parseLine m) ⟨none, []⟩
+
+/-- what the body says, without any parser: the positions and U values written on the atom lines, in order -/
+def specBody : List (BodyLine K) → List (V3 K × U6 K)
+  | [] => []
+  | .atom p u :: ls => (p, u) :: specBody ls
+  | _ :: ls => specBody ls
+
 /-! ### the Shelxfile object when the CELL is changed in place (`shx.cell.set('CELL …')`, fixes/C12_6) -/
 
 /-- what is derived from the cell and kept outside the CELL object: `Shelxfile.orthogonal_matrix` (a reference taken when
